@@ -350,7 +350,8 @@ def check_subset(a, b, timeout_ms=20000):
         return 'proved', None
     if r == z3.sat:
         w = s.model().eval(x, model_completion=True)
-        return 'refuted', w.as_string() if z3.is_string_value(w) else str(w)
+        from .types import z3_unescape
+        return 'refuted', z3_unescape(w.as_string()) if z3.is_string_value(w) else str(w)
     return 'undecided', s.reason_unknown()
 
 
